@@ -29,7 +29,8 @@ func spaceByte(c byte) bool {
 func validNodeText(t, id string) bool {
 	ok := len(t) > 1 && len(id) > 0
 	for i := 0; i < len(t); i++ {
-		ok = verif.And(ok, !spaceByte(t[i]))
+		// "types follow a simple file path syntax": '<' and '>' delimit the id
+		ok = verif.And(ok, verif.And(!spaceByte(t[i]), verif.And(t[i] != '<', t[i] != '>')))
 	}
 	ok = verif.And(ok, t[len(t)-1] != '/')
 	for i := 0; i < len(id); i++ {
@@ -279,4 +280,34 @@ func HarnessC06Triple() {
 	verif.Assert(oeq == sameO, "C06/object/uuid-iff-equal")
 	verif.Assert(eq == same, "C06/triple/equal-iff-components-equal")
 	verif.Assert(uuid.Equal(t1.UUID(), t2.UUID()) == eq, "C06/triple/uuid-consistent-with-equal")
+}
+
+func symPredicateFromID(id string, kind int) *predicate.Predicate {
+	var p *predicate.Predicate
+	var err error
+	if kind == 0 {
+		p, err = predicate.NewImmutable(id)
+	} else {
+		p, err = predicate.NewTemporal(id, anchorPool[verif.Choice("anchor", len(anchorPool))])
+	}
+	verif.Assume(err == nil)
+	return p
+}
+
+func symLiteralText(s string) *literal.Literal {
+	l, err := literal.DefaultBuilder().Build(literal.Text, s)
+	verif.Assume(err == nil)
+	return l
+}
+
+func symLiteralInt(v int64) *literal.Literal {
+	l, err := literal.DefaultBuilder().Build(literal.Int64, v)
+	verif.Assume(err == nil)
+	return l
+}
+
+func symLiteralBool(v bool) *literal.Literal {
+	l, err := literal.DefaultBuilder().Build(literal.Bool, v)
+	verif.Assume(err == nil)
+	return l
 }
